@@ -84,7 +84,7 @@ def run(ck, facts):
     ck.not_decided += ["foreign grow callbacks that violate their documented contract", "values actually written for all chunk sequences (behaviour)"]
 
     ws = rt.fn("<diplomat_runtime::write::DiplomatWrite as core::fmt::Write>::write_str")
-    m = MirFn(ws)
+    m = MirFn(C.inline_mir(rt, ws))   # write_str with its private phase helpers spliced in
     L = lambda bb: C.loc(ws, m.cfg.blocks[bb]["term"].get("ln"))
 
     # --- locate the copy
@@ -159,7 +159,8 @@ def run(ck, facts):
         return ev is not None and all(v != 0 for v in ev)
 
     # --- R1 path rule
-    paths = m.paths(0, cbb)
+    adts_all = facts.all_adts()
+    paths = [p_ for p_ in m.paths(0, cbb) if m.feasible(p_, adts_all)]     # a status flag / enum returned by a capacity helper does not create paths it excludes
     if not paths:
         ck.bad("R1", "write_str/paths", "copy unreachable?", L(cbb))
     bad_paths = 0
@@ -184,7 +185,7 @@ def run(ck, facts):
                    % ("" if sticky_ok else " / without the grow_failed early-out", p, [(a, sw[a][0], sym_show(sw[a][1])) for a in p if a in sw]), L(cbb))
     if paths and not bad_paths:
         ck.ok("R1", "write_str/path-to-copy", "%d paths to the copy, all guarded" % len(paths), L(cbb))
-    kinds = [v[0] for v in sw.values()]
+    kinds = [v[0] or "" for v in sw.values()]
     ck.expect("capcheck" in kinds or "capok" in kinds, "R1", "write_str/capacity-test", "capacity test present",
               "no branch compares self.len + s.len() with self.cap; conditions: %s" % [sym_show(v[1]) for v in sw.values()], C.loc(ws))
     if any(k.endswith("off-by-one") for k in kinds):
@@ -223,7 +224,7 @@ def run(ck, facts):
     if not fail_edges:
         ck.bad("R2", "write_str/fail-edge", "no branch on the result of grow(self, needed_len) found", C.loc(ws))
     for a, b in fail_edges:
-        reach = m.cfg.reachable_from(b)
+        reach = m.feasible_reach(b, adts_all)
         flag_set = False
         problems = []
         for bb, st in m.stores():
@@ -289,6 +290,20 @@ def run(ck, facts):
         role_of[simple["flush"]["path"]] = "simple_write.flush"
     if buffer.get("grow"):
         role_of[buffer["grow"]["path"]] = "buffer_write.grow"
+    # private helpers spliced into an analysed function are analysed as part of it -- provided nothing else calls them
+    callers = {}
+    for f in rt.fn_list:
+        for c_ in (f.get("mir") or {}).get("calls", []) or []:
+            callers.setdefault(C.norm_path(c_ if isinstance(c_, str) else (c_.get("p") or "")), set()).add(f["path"])
+    for owner_path, role in list(role_of.items()):
+        of_ = rt.fns.get(owner_path)
+        if not of_:
+            continue
+        spliced = set(C.inline_mir(rt, of_).get("_inlined", []))
+        for hp in spliced:
+            outside = {c_ for c_ in callers.get(C.norm_path(hp), set()) if c_ != owner_path and c_ not in spliced}
+            if not outside:
+                role_of.setdefault(hp, role)
     WRITERS = {
         ("write_str", "store.grow_failed"), ("write_str", "store.len"), ("write_str", "write-through-buf"),   # R1-R4
         ("simple_write.flush", "write-through-buf"),                                                          # R6 (the NUL)
@@ -394,7 +409,7 @@ def run(ck, facts):
         if not gf:
             ck.bad("R6", "diplomat_simple_write/grow-fn", "cannot resolve the grow callback (%s)" % sym_show(g), C.loc(f))
         else:
-            mg = MirFn(gf)
+            mg = MirFn(C.inline_mir(rt, gf))
             rets = [mg.sym_rv(s["rv"]) for b in mg.mir["blocks"] for s in b["stmts"] if s["k"] == "assign" and s["lhs"]["l"] == 0 and not s["lhs"].get("p")]
             eff = list(mg.stores()) + list(mg.calls())
             ck.expect(rets == [("const", "false")] and not eff, "R6", "diplomat_simple_write/grow-false", "grow returns false, no effects", "fixed-buffer grow returns %s / has effects" % [sym_show(r) for r in rets], C.loc(gf))
@@ -402,7 +417,7 @@ def run(ck, facts):
         if not ff:
             ck.bad("R6", "diplomat_simple_write/flush-fn", "cannot resolve the flush callback", C.loc(f))
         else:
-            mfl = MirFn(ff)
+            mfl = MirFn(C.inline_mir(rt, ff))
             writes = [(bb, t) for bb, t in mfl.calls() if re.search(r"ptr::(write|write_volatile|write_unaligned|mut_ptr::<impl \*mut T>::write)$", C.mir_callee(t) or "")]
             st = [s for _, s in mfl.stores()]
             okw = False
@@ -422,7 +437,7 @@ def run(ck, facts):
     # the method the generated code calls after the Rust method returned runs the installed flush callback on every path (also after a failed grow: what was
     # accepted before the failure still has to be terminated / published)
     fm = rt.fn("diplomat_runtime::write::DiplomatWrite::flush")
-    mfm = MirFn(fm)
+    mfm = MirFn(C.inline_mir(rt, fm))
     ind = [bb for bb, t in mfm.calls() if not C.mir_callee(t)]
     ok_ind = False
     if len(ind) == 1:
@@ -436,7 +451,7 @@ def run(ck, facts):
     f = writer_slots(rt, "diplomat_buffer_write_create").get("grow")
     if f is None:
         raise C.CheckError("cannot resolve the grow callback installed by diplomat_buffer_write_create")
-    mg = MirFn(f)
+    mg = MirFn(C.inline_mir(rt, f))
     calls = {}
     for bb, t in mg.calls():
         calls.setdefault((C.mir_callee(t) or "indirect"), []).append((bb, t))
